@@ -16,6 +16,7 @@ CONSTANTS
   VarVals <- VarValsSmall
   MaxOverlay = 0
   TRSets <- NoTR
+  FalsyOverlays = FALSE
   MaxFaults = 1
   MaxEvents = 2
   EventKinds <- EvKinds
